@@ -23,6 +23,7 @@ import (
 
 	commontimeutil "github.com/lindb/common/pkg/timeutil"
 	"github.com/lindb/roaring"
+	"go.uber.org/atomic"
 
 	"github.com/lindb/lindb/constants"
 	"github.com/lindb/lindb/flow"
@@ -124,6 +125,8 @@ func (md *memoryDatabase) filter(shardExecuteContext *flow.ShardExecuteContext,
 		return nil, fmt.Errorf("%w when Filter, familyTime: %d, fields: %s",
 			constants.ErrSeriesIDNotFound, familyTime, fields.String())
 	}
+	// NOTE: query reads write buffers after filtering, flush job must not release them until result set closed.
+	md.retain()
 	// returns the filter result set
 	return []flow.FilterResultSet{
 		&memFilterResultSet{
@@ -147,6 +150,7 @@ type memFilterResultSet struct {
 	seriesIDs       *roaring.Bitmap
 	fields          []*fieldEntry
 	familyTime      int64
+	closed          atomic.Bool
 }
 
 // Identifier identifies the source of result set from memory storage
@@ -194,5 +198,7 @@ func (rs *memFilterResultSet) Load(ctx *flow.DataLoadContext) flow.DataLoader {
 
 // Close release the resource during doing query operation.
 func (rs *memFilterResultSet) Close() {
-	// do nothing
+	if rs.closed.CompareAndSwap(false, true) {
+		rs.db.release()
+	}
 }
